@@ -14,7 +14,9 @@ var (
 	// "same-path-named-k": the second guard lists the first path again, under the literal name k (each listing is a guard)
 	c10G2    = []string{"none", "second-holds", "second-fails", "same-path-named-k"}
 	c10Shape = []string{"single", "grouped", "two-blocks"}
-	c10Pkg   = []string{"none", "matching", "non-matching", "rename-matching", "rename-non-matching"}
+	// "non-matching-metavariable-name": 'package elsewhere' in a change that also declares a metavariable named elsewhere
+	// (the package clause is a name, not a pattern)
+	c10Pkg = []string{"none", "matching", "non-matching", "rename-matching", "rename-non-matching", "non-matching-metavariable-name"}
 	c10Pref  = []string{"context", "minus"}
 	// kind of the code pattern behind the guards: the guard has to hold for every kind, also when the two
 	// sides of the change are of different kinds (a single expression replaced by several statements)
@@ -129,7 +131,7 @@ func (c c10Cell) expected() bool {
 		}
 	}
 	switch c10Pkg[c.pkg] {
-	case "non-matching", "rename-non-matching":
+	case "non-matching", "rename-non-matching", "non-matching-metavariable-name":
 		ok = false
 	case "matching", "rename-matching":
 		if c10FPkg[c.fpkg] != "pk" {
@@ -147,6 +149,9 @@ func (c c10Cell) patch() string {
 	if c10P[c.p] == "metavar" {
 		sb.WriteString("var imp identifier\n")
 	}
+	if c10Pkg[c.pkg] == "non-matching-metavariable-name" {
+		sb.WriteString("var elsewhere identifier\n")
+	}
 	sb.WriteString("@@\n")
 	pref := " "
 	if c10Pref[c.pref] == "minus" {
@@ -158,7 +163,7 @@ func (c c10Cell) patch() string {
 		if pref == "-" {
 			sb.WriteString("+package pk\n")
 		}
-	case "non-matching":
+	case "non-matching", "non-matching-metavariable-name":
 		sb.WriteString(pref + "package elsewhere\n")
 		if pref == "-" {
 			sb.WriteString("+package elsewhere\n")
@@ -328,8 +333,8 @@ func init() {
 	core.Register(&core.Prop{
 		ID:    "C10",
 		Level: "exploration",
-		Rule: "exhaustive table of 99840 cells: patch-side import form {absent, unnamed, named n, named other, named like the last path element, metavariable-named, '.', '_'} x file-side form {no imports, other paths only, unnamed, same name, other name, named like the last path element, '.', '_', " +
-			"same path twice under two names (both orders), unnamed+named, path spelled as a raw string literal (unnamed / named)} x second guard import {none, holds, fails, the first path again under another literal name} x import block shape {single, grouped, two blocks} x package clause {none, matching, non-matching, rename of matching, rename of non-matching} " +
+		Rule: "exhaustive table of 119808 cells: patch-side import form {absent, unnamed, named n, named other, named like the last path element, metavariable-named, '.', '_'} x file-side form {no imports, other paths only, unnamed, same name, other name, named like the last path element, '.', '_', " +
+			"same path twice under two names (both orders), unnamed+named, path spelled as a raw string literal (unnamed / named)} x second guard import {none, holds, fails, the first path again under another literal name} x import block shape {single, grouped, two blocks} x package clause {none, matching, non-matching, rename of matching, rename of non-matching, non-matching and spelled like a metavariable of the change} " +
 			"x guard line prefix {context, '-'} x kind of the code pattern {expression, expression replaced by several statements, statement, declaration} x package of the file {pk, pk_test}; when the change applies the package clause must be the file's own (or the renamed one); every cell on a file in which the code pattern occurs; library API for all cells, CLI for every 8th batch. Oracle: the change applies iff every guard holds per the statement's table. " +
 			"Every cell is non-trivial and distinct (one configuration each).",
 		Assumptions: []string{"'in the stated form' for a path imported twice: the guard holds if any of the specs has the stated form", "a file without imports cannot hold a second guard: such cells expect 'not applied'"},
